@@ -405,7 +405,11 @@ def read_where_def(line: str) -> tuple[Literal["where"], bool] | None:
         close_paren = find_paren_match(trailing_line)
         if close_paren < 0:
             return "where", True
-        if FRegex.WORD.match(trailing_line[close_paren + 1 :].strip()):
+        rest = trailing_line[close_paren + 1 :].strip()
+        # An assignment to an element of an array that is called `where`
+        if rest.startswith(("=", "%", "(")) and not rest.startswith("=="):
+            return None
+        if FRegex.WORD.match(rest):
             return "where", True
         else:
             return "where", False
@@ -434,6 +438,9 @@ def read_associate_def(line: str):
         match_char = find_paren_match(trailing_line)
         if match_char < 0:
             return "assoc", []
+        # An assignment to an element of an array that is called `associate`
+        if trailing_line[match_char + 1 :].lstrip().startswith(("=", "%")):
+            return None
         var_words = separate_def_list(trailing_line[:match_char].strip())
         return "assoc", var_words
 
